@@ -10,6 +10,7 @@ LEVEL = "proof"
 COQ_FILES = ["Tie/C05_tie.v", "Props/C05_props.v"]
 PROPS_FILES = ["C05_props.v"]
 TRUSTED_BASE = [
+    "vlib/symex.py (symbolic execution of the translated Python subset on the ast: the translator reads value / outcome trees, so local names, intermediates, helpers and the form of branches do not matter; its assumptions - pure expressions, opaque calls, no aliasing writes, try handlers not modelled - are listed in DESIGN.md 12.7; fail-closed)",
     "vlib/rngir.py (AST -> random-discipline IR): every call in each generator's mask_func (methods reached through self. are inlined along the MRO) is classified as private draw / private reseed / C kernel / global-stream access / pure; unclassifiable random-looking calls become RUnknown, which the discipline predicate rejects; temp_seed and integerize_seed are checked to have the save-seed-restore shape",
     "numpy RandomState: seed(s) makes the stream a function of s; get_state / set_state restore it; libc srand/rand inside the Cython kernels: a function of the seed passed",
     "the mask is a function of the values drawn inside the block and of the call arguments (pure numpy / scipy code in between)",
